@@ -285,7 +285,7 @@ impl SATSolver {
                         lemma_extends_trans(new_model, m1, s0.frame(j));
                     }
                 }
-//%% @before /^\s*if num_set .*self\.clauses\.len\(\) \{$/
+//%% @before /^\s*if num_set /
                 proof {
                     lemma_decide_pushed(s0, *self);
                     let n = s0.state_stack@.len() as int;
